@@ -250,6 +250,12 @@ func (k *Keys) ReadKey() (key rune, isAbort bool) {
 	}()
 
 	switch {
+	case len(k.buf) > 0:
+		// Keys that were read along with the command's own.
+		var size int
+		key, size = utf8.DecodeRune(k.buf)
+		k.buf = k.buf[size:]
+
 	case len(k.macroKeys) > 0:
 		key = k.macroKeys[0]
 		k.macroKeys = k.macroKeys[1:]
